@@ -213,6 +213,25 @@ func init() {
 			e.path.bounds[name] = v
 			return e.pool.BV(uint64(v), 64)
 		},
+		// vrtGo(f): start f as a new thread; vrtJoin(): wait until every started thread has finished
+		"vrtGo": func(fr *frame, a []Value) Value {
+			fr.th.visible = false
+			fr.th.spawn(fr, fr.callpos, a[0], nil)
+			return nil
+		},
+		"vrtJoin": func(fr *frame, a []Value) Value {
+			th := fr.th
+			th.visible = false
+			th.block("vrtJoin", func() bool {
+				for _, t := range th.eng.threads {
+					if t != th && !t.finished {
+						return false
+					}
+				}
+				return true
+			})
+			return nil
+		},
 		"vrtSymbolic": func(fr *frame, a []Value) Value { return fr.th.eng.pool.True },
 		"vrtNote": func(fr *frame, a []Value) Value {
 			fr.th.eng.note(strArg(a[0]))
